@@ -334,6 +334,8 @@ func C02(r *core.Run) {
 		}
 	})
 	c02pipeline(r)
+	// a sequence split across two reads while the main loop is held up past the escape timer
+	c05stall(r)
 }
 
 func tokBytes(ts []token) []string {
